@@ -286,6 +286,15 @@ def r11(fx):
             yield o
 
 
+@rule('C01', 'R12', 120, 'the reader finds the data modules where ISO puts them: alignment centres = Annex E, every function-pattern cell of every symbol size (C02.R2, C02.R5)')
+def r12(fx):
+    from . import p02
+    yield from p02.r2(fx)
+    for o in p02.r5(fx):
+        if any(k in o.key for k in ('alignment cells', 'data cells', 'finder cells', 'timing cells', 'data cells = ISO data modules')):
+            yield o
+
+
 @rule('C01', 'R3', 300, 'bits written = bits budgeted (write_segment + SA header vs bit_length_with_overhead), all versions/modes/ECI/SA')
 def r3(fx):
     yield from p04.sized_equals_written(fx)
@@ -436,7 +445,9 @@ def r5(fx):
              ('plain parts after parts with their own mode / encoding (nothing carries over)', [('A', None, 'utf-8'), 'B', ('C', N), 'D', ('E', B, 'latin-1'), 'F'], None, None,
               [('A', None, 'utf-8'), ('B', None, None), ('C', N, None), ('D', None, None), ('E', B, 'latin-1'), ('F', None, None)]),
              ('the same with global mode and encoding', [('A', N, 'utf-8'), 'B', ('C', None, None), 8], B, 'cp1252',
-              [('A', N, 'utf-8'), ('B', B, 'cp1252'), ('C', B, 'cp1252'), (8, B, 'cp1252')])]
+              [('A', N, 'utf-8'), ('B', B, 'cp1252'), ('C', B, 'cp1252'), (8, B, 'cp1252')]),
+             ('falsy parts (the integer 0, empty text, empty bytes), plain or in a tuple: parts like any other', [0, 'a', '', b'', (0,), ('', N), (0, None, 'utf-8'), (b'', B, None)], None, 'cp1252',
+              [(0, None, 'cp1252'), ('a', None, 'cp1252'), ('', None, 'cp1252'), (b'', None, 'cp1252'), (0, None, 'cp1252'), ('', N, 'cp1252'), (0, None, 'utf-8'), (b'', B, 'cp1252')])]
     for title, content, mode, enc, want in cases:
         log.clear()
         res = pdf(content, mode, enc)
@@ -571,8 +582,9 @@ def r8(fx):
             header = buf.appends[:len([a for a in buf.appends if a[0] != 'extend'])]
             want_hdr = [(3, 4), (1, 4), (2, 4), (0x5A, 8)] if sa is not None else []
             first_len = ws[0][3] if ws else None
-            if [a for a in buf.appends if isinstance(a[0], int)] != want_hdr:
-                probs.append(f'header bits {[a for a in buf.appends if isinstance(a[0], int)]}, expected {want_hdr}')
+            want_bits = [(v_ >> (w_ - 1 - k_)) & 1 for v_, w_ in want_hdr for k_ in range(w_)]
+            if list(buf.bits[:first_len or 0]) != want_bits:
+                probs.append(f'header bits {list(buf.bits[:first_len or 0])}, expected {want_hdr}')
             if first_len != sum(w for _, w in want_hdr):
                 probs.append(f'{first_len} bits precede the first segment')
             segs = info['segments'].segments
